@@ -630,6 +630,9 @@ func c32RealPaths(run *mon.Run, tier string) {
 		run.Checkpoint()
 	}
 
+	// ---- ValidateTransactions on blocks with transactions that were validated before (validated-transactions cache)
+	c32Prevalidated(run, w, mc, r.Fork("prevalidated"), tier)
+
 	// ---- VerifyTickets: one message (the block hash), one ticket per miner
 	miners := w.Miners
 	for k := 1; k <= len(miners); k++ {
@@ -722,5 +725,226 @@ func c32MalformedInBlock(run *mon.Run) {
 		violate(run, "C32:accepts-invalid-malformed-signature-string", "ValidateTransactions accepted a block with a transaction whose signature is the string \"(zz,zz)\"", nil)
 	} else {
 		run.Count("c32.invalid_rejected", 1)
+	}
+}
+
+// c32Prevalidated: some of a block's transactions were validated on their own before and recorded in the chain's
+// validated-transactions cache (Chain.AddValidatedTxns(hash, signature)), as the transaction pool path does. The block
+// then arrives (a) unchanged, (b) with the signature of one recorded transaction replaced (the hash does not cover the
+// signature, so the hash still matches the record), (c) with an unrecorded transaction corrupted, (d) with a record that
+// holds another signature than the block. Oracle as everywhere in C32: the block is accepted exactly when every signature
+// THE BLOCK CARRIES verifies individually (herumi), whatever was validated earlier.
+func c32Prevalidated(run *mon.Run, w *world.World, mc *miner.Chain, r *mon.Rand, tier string) {
+	ctx := context.Background()
+	ns := []int{2, 3, 5, 9, 16}
+	if tier == "thorough" {
+		ns = []int{2, 3, 4, 5, 8, 9, 16, 33, 64}
+	}
+	type delivery struct {
+		name   string
+		tamper func(rr *mon.Rand, genuine string, hash string, other *world.Wallet) string // new signature of the chosen recorded txn
+	}
+	deliveries := []delivery{
+		{"unchanged", nil},
+		{"recorded-txn-signed-by-other-key", func(rr *mon.Rand, g, h string, other *world.Wallet) string { return other.Sign(h) }},
+		{"recorded-txn-signature-shifted", func(rr *mon.Rand, g, h string, _ *world.Wallet) string { return addToSig(g, randG1(rr), false) }},
+		{"recorded-txn-signature-random-point", func(rr *mon.Rand, g, h string, _ *world.Wallet) string {
+			return bls.CastToSign(randG1(rr)).SerializeToHexStr()
+		}},
+		{"recorded-txn-signature-neutral", func(rr *mon.Rand, g, h string, _ *world.Wallet) string { return c32NeutralSig() }},
+		{"recorded-txn-signature-empty", func(rr *mon.Rand, g, h string, _ *world.Wallet) string { return "" }},
+		{"unrecorded-txn-signature-shifted", nil},
+		{"record-holds-other-signature", nil},
+	}
+	subsetKinds := []string{"one", "two", "half", "all-but-one-per-batch", "batch-heads", "batch-tails"}
+	round := int64(100000)
+	for _, n := range ns {
+		wallets := make([]*world.Wallet, n+1)
+		for i := range wallets {
+			wallets[i] = world.NewWallet(fmt.Sprintf("%d:c32-pv-%d-%d", mon.Seed(), n, i))
+		}
+		seenBS := map[int]bool{}
+		for _, bs := range []int{2, 3, 4, n / 2, n, 1000} {
+			if bs < 2 || seenBS[bs] {
+				continue
+			}
+			seenBS[bs] = true
+			viper.Set("server_chain.block.validation.batch_size", bs)
+			if err := w.Chain.ChainConfig.FromViper(); err != nil {
+				panic(err)
+			}
+			if mc.ValidationBatchSize() != bs {
+				run.Inconclusive("cannot set validation batch size")
+				return
+			}
+			for _, kind := range subsetKinds {
+				for _, dl := range deliveries {
+					rr := r.Fork(fmt.Sprintf("pv-n%d-bs%d-%s-%s", n, bs, kind, dl.name))
+					txns := make([]*transaction.Transaction, n)
+					genuine := make([]string, n)
+					for i := range txns {
+						t := w.MakeTxn(world.TxnSpec{From: wallets[i], To: w.Clients[0].ID, Value: currency.Coin(1 + i), Fee: 1e9, Nonce: int64(1 + rr.Intn(1000)), Type: transaction.TxnTypeSend})
+						t.OutputHash = t.ComputeOutputHash()
+						txns[i] = t
+						genuine[i] = t.Signature
+					}
+					// which transactions were validated before. Every validation batch keeps one transaction (the keeper, seeded
+					// position) that was never validated: a batch made of recorded transactions only contributes nothing to the
+					// aggregate (see the report; BLS0ChainAggregateSignatureScheme.Verify dereferences the empty slot).
+					var rec, cand []int
+					for st := 0; st < n; st += bs {
+						en := st + bs
+						if en > n {
+							en = n
+						}
+						keeper := st + rr.Intn(en-st)
+						if kind == "batch-heads" {
+							keeper = en - 1
+						} else if kind == "batch-tails" {
+							keeper = st
+						}
+						for i := st; i < en; i++ {
+							if i != keeper {
+								cand = append(cand, i)
+							}
+						}
+						if en-st >= 2 {
+							switch kind {
+							case "batch-heads":
+								rec = append(rec, st)
+							case "batch-tails":
+								rec = append(rec, en-1)
+							}
+						}
+					}
+					pickCand := func(k int) []int {
+						if len(cand) == 0 {
+							return nil
+						}
+						if k > len(cand) {
+							k = len(cand)
+						}
+						var out []int
+						for _, x := range pickDistinct(rr, len(cand), k) {
+							out = append(out, cand[x])
+						}
+						return out
+					}
+					switch kind {
+					case "one":
+						rec = pickCand(1)
+					case "two":
+						rec = pickCand(2)
+					case "half":
+						rec = pickCand((n + 1) / 2)
+					case "all-but-one-per-batch":
+						rec = pickCand(len(cand))
+					}
+					if rec == nil {
+						run.Count("c32.pattern_not_applicable", 1)
+						continue
+					}
+					recorded := map[int]string{}
+					for _, i := range rec {
+						// validated on its own first (reference verdict), then recorded
+						if !refValid(aggItem{pubHex: txns[i].PublicKey, hash: txns[i].Hash, sig: genuine[i]}) {
+							panic("c32: generated transaction does not verify")
+						}
+						recorded[i] = genuine[i]
+					}
+					touched := []int{}
+					switch {
+					case dl.tamper != nil:
+						i := rec[rr.Intn(len(rec))]
+						txns[i].Signature = dl.tamper(rr, genuine[i], txns[i].Hash, wallets[(i+1+rr.Intn(n))%(n+1)])
+						touched = []int{i}
+					case dl.name == "unrecorded-txn-signature-shifted":
+						var free []int
+						for i := range txns {
+							if _, ok := recorded[i]; !ok {
+								free = append(free, i)
+							}
+						}
+						if len(free) == 0 {
+							continue
+						}
+						i := free[rr.Intn(len(free))]
+						txns[i].Signature = addToSig(genuine[i], randG1(rr), false)
+						touched = []int{i}
+					case dl.name == "record-holds-other-signature":
+						i := rec[rr.Intn(len(rec))]
+						recorded[i] = addToSig(genuine[i], randG1(rr), false)
+						touched = []int{i}
+					}
+					items := make([]aggItem, n)
+					allValid := true
+					for i, t := range txns {
+						items[i] = aggItem{pubHex: t.PublicKey, hash: t.Hash, sig: t.Signature}
+						if !refValid(items[i]) {
+							allValid = false
+						}
+					}
+					if allValid != (dl.name == "unchanged" || dl.name == "record-holds-other-signature") {
+						run.Count("c32.corruption_harmless", 1)
+						continue
+					}
+					var hashes []string
+					for i, sg := range recorded {
+						mc.AddValidatedTxns(txns[i].Hash, sg)
+						hashes = append(hashes, txns[i].Hash)
+					}
+					round++
+					b := block.NewBlock(w.Chain.GetKey(), round)
+					b.CreationDate = w.Now
+					b.Txns = txns
+					var verr error
+					p := guard(func() { verr = mc.ValidateTransactions(ctx, b) })
+					mc.DeleteValidatedTxns(hashes)
+					accept := p == "" && verr == nil
+					how := "ACCEPTS"
+					if p != "" {
+						how = "PANIC"
+					} else if verr != nil {
+						how = "rejects:" + errCode(verr)
+					}
+					posClass := "-"
+					if len(touched) == 1 {
+						switch i := touched[0]; {
+						case i%bs == 0 && (i%bs == bs-1 || i == n-1):
+							posClass = "alone-in-batch"
+						case i%bs == 0:
+							posClass = "batch-head"
+						case i%bs == bs-1 || i == n-1:
+							posClass = "batch-tail"
+						default:
+							posClass = "batch-middle"
+						}
+					}
+					run.Eval(1)
+					run.Count("c32.validate_transactions_evaluated", 1)
+					run.Count("c32.aggregate_evaluated", 1)
+					run.Count("c32.prevalidated_evaluated", 1)
+					run.Count("c32.prevalidated."+dl.name, 1)
+					run.Distinct(fmt.Sprintf("ValidateTransactions|prevalidated|n=%d|bs=%d|recorded=%s|%s|%s|%s", n, bs, kind, dl.name, posClass, how))
+					rep := map[string]interface{}{"seed": mon.Seed(), "path": "miner.Chain.ValidateTransactions after Chain.AddValidatedTxns", "n": n, "batch_size": bs, "recorded_positions": rec, "recorded_signatures": recorded, "delivery": dl.name, "positions": touched, "items": items}
+					switch {
+					case p != "":
+						violate(run, "C32:panic-prevalidated-"+dl.name, fmt.Sprintf("ValidateTransactions panicked (n=%d bs=%d, transactions %v validated before, %s): %s", n, bs, rec, dl.name, p), rep)
+					case allValid && accept:
+						run.Count("c32.all_valid_accepted", 1)
+						run.Count("c32.prevalidated_all_valid_accepted", 1)
+					case allValid && !accept:
+						violate(run, "C32:rejects-all-valid", fmt.Sprintf("ValidateTransactions rejects a block of %d individually valid txns (batch size %d) of which %v were validated before (%s): %v", n, bs, rec, dl.name, verr), rep)
+					case !allValid && accept:
+						run.Count("c32.ValidateTransactions_accepts_invalid.prevalidated-"+dl.name, 1)
+						violate(run, "C32:accepts-invalid-prevalidated-"+dl.name, fmt.Sprintf("miner.Chain.ValidateTransactions accepts a block of %d txns (validation batch size %d, txns %v validated before and recorded with their genuine signatures) although the signature the block carries at position %v fails individual verification (%s, %s)", n, bs, rec, touched, dl.name, posClass), rep)
+					default:
+						run.Count("c32.invalid_rejected", 1)
+						run.Count("c32.prevalidated_invalid_rejected", 1)
+					}
+				}
+			}
+		}
+		run.Checkpoint()
 	}
 }
